@@ -146,17 +146,42 @@ def install(E):
     def _bool(E, P, ctx, x):
         return [(P, Bool(E.truth(x, P)))]
 
+    def quotient_facts(P, t, n, isceil):
+        """n = floor(a/b) (or ceil): add the linear-looking consequences n*b <= a < (n+1)*b (b > 0; reversed for b < 0).
+        They are theorems of real arithmetic (multiply n <= a/b < n+1 by b); stating them keeps the later
+        obligations out of z3's nonlinear engine, which was measured slow/unstable on them."""
+        if not (z3.is_app(t) and t.decl().kind() == z3.Z3_OP_DIV):
+            return
+        a, b = t.arg(0), t.arg(1)
+        if z3.is_rational_value(z3.simplify(b)):
+            return
+        nr = z3.ToReal(n)
+        if not isceil:
+            P.assume(z3.Implies(b > 0, z3.And(nr * b <= a, a < (nr + 1) * b)))
+            P.assume(z3.Implies(b < 0, z3.And(nr * b >= a, a > (nr + 1) * b)))
+        else:
+            P.assume(z3.Implies(b > 0, z3.And(nr * b >= a, a > (nr - 1) * b)))
+            P.assume(z3.Implies(b < 0, z3.And(nr * b <= a, a < (nr - 1) * b)))
+
     @reg("math.floor")
     def _floor(E, P, ctx, x):
         x = E.num(x)
         E.need_num(x)
-        return [(P, x if x.isint else Num(floor_t(x.t), True))]
+        if x.isint:
+            return [(P, x)]
+        n = floor_t(x.t)
+        quotient_facts(P, x.t, n, False)
+        return [(P, Num(n, True))]
 
     @reg("math.ceil")
     def _ceil(E, P, ctx, x):
         x = E.num(x)
         E.need_num(x)
-        return [(P, x if x.isint else Num(ceil_t(x.t), True))]
+        if x.isint:
+            return [(P, x)]
+        n = ceil_t(x.t)
+        quotient_facts(P, x.t, n, True)
+        return [(P, Num(n, True))]
 
     E.ext_values["math.inf"] = Inf(1)
     E.ext_values["sys.maxsize"] = I(2 ** 63 - 1)
